@@ -12,7 +12,7 @@ from symx import core
 from vf import machine as MC
 from vf.unit import eq, holds
 
-FAMILIES = ['isa_dp', 'isa_ls']
+FAMILIES = ['isa_dp', 'isa_ls', 'isa_sat']
 _loaded = set()
 
 
@@ -36,6 +36,8 @@ def mk_step(enc, arch=6, sec=True, virt=False, vmsa=False, mode=None, it='any', 
             set_sys=None, tables=None, expect_class=True, extra_assume=None, fix=None):
     """unit: all fields of the encoding, all registers/flags/mode symbolic"""
     cache = {}
+    from vf import known
+    open_ids = known.open_ids()
 
     def fn(env):
         load_tables(tables)
@@ -64,6 +66,9 @@ def mk_step(enc, arch=6, sec=True, virt=False, vmsa=False, mode=None, it='any', 
             m.exp, m.unp, m.info = exp, unp, info
             m.pre_ident = pre0
             env.assume(z3.Not(unp))
+            for fid, region in E.known:
+                if fid in open_ids and env.symbolic:  # (witness replays must be able to reach the region)
+                    env.assume(z3.Not(region(f, m.pre)))
             if extra_assume:
                 env.assume(extra_assume(m))
             arm = m.arm
